@@ -65,7 +65,7 @@ func extractRuneMachine(f *FuncInfo) *runeMachine {
 					continue
 				}
 				for _, e := range cc.List {
-					arm := parseRuneGuard(info, e, chObj)
+					arm := parseRuneGuard(f, rs, e, chObj)
 					if arm == nil {
 						mm.Other++
 						continue
@@ -102,18 +102,31 @@ func extractRuneMachine(f *FuncInfo) *runeMachine {
 	return m
 }
 
-func parseRuneGuard(info *types.Info, e ast.Expr, ch types.Object) *runeArm {
+func parseRuneGuard(f *FuncInfo, loop *ast.RangeStmt, e ast.Expr, ch types.Object) *runeArm {
+	info := f.Info()
 	arm := &runeArm{}
 	found := false
-	var walk func(e ast.Expr) bool
-	walk = func(e ast.Expr) bool {
+	// localDef: the single one-to-one definition of a boolean declared inside the loop body
+	// (a named sub-condition computed per rune, e.g. unescaped := !inEscape).
+	localDef := func(id *ast.Ident) ast.Expr {
+		obj := info.ObjectOf(id)
+		if obj == nil || obj.Pos() < loop.Body.Pos() || obj.Pos() > loop.Body.End() {
+			return nil
+		}
+		return oneToOneDef(f, obj)
+	}
+	var walk func(e ast.Expr, pos bool, depth int) bool
+	walk = func(e ast.Expr, pos bool, depth int) bool {
 		e = ast.Unparen(e)
+		if depth > 6 {
+			return false
+		}
 		switch x := e.(type) {
 		case *ast.BinaryExpr:
-			if x.Op == token.LAND {
-				return walk(x.X) && walk(x.Y)
+			if x.Op == token.LAND && pos {
+				return walk(x.X, pos, depth) && walk(x.Y, pos, depth)
 			}
-			if x.Op == token.EQL {
+			if x.Op == token.EQL && pos {
 				if ObjOf(info, x.X) == ch {
 					if v, ok := info.Types[x.Y]; ok && v.Value != nil {
 						n, err := strconv.ParseInt(v.Value.ExactString(), 10, 32)
@@ -128,19 +141,19 @@ func parseRuneGuard(info *types.Info, e ast.Expr, ch types.Object) *runeArm {
 			return false
 		case *ast.UnaryExpr:
 			if x.Op == token.NOT {
-				if id, ok := ast.Unparen(x.X).(*ast.Ident); ok {
-					arm.Flags = append(arm.Flags, flagCond{id.Name, false})
-					return true
-				}
+				return walk(x.X, !pos, depth)
 			}
 			return false
 		case *ast.Ident:
-			arm.Flags = append(arm.Flags, flagCond{x.Name, true})
+			if d := localDef(x); d != nil {
+				return walk(d, pos, depth+1)
+			}
+			arm.Flags = append(arm.Flags, flagCond{x.Name, pos})
 			return true
 		}
 		return false
 	}
-	if !walk(e) || !found {
+	if !walk(e, true, 0) || !found {
 		return nil
 	}
 	return arm
